@@ -10,5 +10,15 @@ theorem fact_runner_Start : F1.Generated.skel_runner_Start = F1.Expected.skel_ru
 theorem fact_runner_Stop : F1.Generated.skel_runner_Stop = F1.Expected.skel_runner_Stop := by rfl
 theorem fact_runner_Restart : F1.Generated.skel_runner_Restart = F1.Expected.skel_runner_Restart := by rfl
 theorem fact_schedules_start : F1.Generated.skel_schedules_start = F1.Expected.skel_schedules_start := by rfl
+theorem fact_runner_New : F1.Generated.skel_runner_New = F1.Expected.skel_runner_New := by rfl
+theorem fact_schedules_new : F1.Generated.skel_schedules_new = F1.Expected.skel_schedules_new := by rfl
+theorem fact_schedules_startFirst : F1.Generated.skel_schedules_startFirst = F1.Expected.skel_schedules_startFirst := by rfl
+theorem fact_schedules_startNext : F1.Generated.skel_schedules_startNext = F1.Expected.skel_schedules_startNext := by rfl
+theorem fact_schedules_currentFrequency : F1.Generated.skel_schedules_currentFrequency = F1.Expected.skel_schedules_currentFrequency := by rfl
+theorem fact_schedules_stop : F1.Generated.skel_schedules_stop = F1.Expected.skel_schedules_stop := by rfl
+theorem fact_schedules_timeUntilNextSchedule : F1.Generated.skel_schedules_timeUntilNextSchedule = F1.Expected.skel_schedules_timeUntilNextSchedule := by rfl
+theorem fact_schedules_currentScheduleTicker : F1.Generated.skel_schedules_currentScheduleTicker = F1.Expected.skel_schedules_currentScheduleTicker := by rfl
+theorem fact_run_newProgressRunner : F1.Generated.skel_run_newProgressRunner = F1.Expected.skel_run_newProgressRunner := by rfl
+theorem fact_run_Do : F1.Generated.skel_run_Do = F1.Expected.skel_run_Do := by rfl
 
 end F1.Props.FactsC18
